@@ -24,6 +24,13 @@ abbrev Name := Bytes
 /-- `structs.WildcardSpecifier` = "*" -/
 def star : Name := [42]
 
+/-- `strings.ToLower` on the ASCII letters (what memdb's `Lowercase: true` string indexes and the
+    config-entry primary key apply to names; non-ASCII upper-case letters are outside the model) -/
+def lc (n : Name) : Name := n.map fun b => if 65 ≤ b ∧ b ≤ 90 then b + 32 else b
+
+/-- equality of memdb index keys: names that differ only in letter case collide -/
+def sameName (a b : Name) : Bool := lc a = lc b
+
 /-- `IntentionAction` as the validators see it: "allow", "deny", "" (omitted) or anything else -/
 inductive Act | allow | deny | none | bad
 deriving DecidableEq, Repr
@@ -176,10 +183,12 @@ structure Store where
   rows    : List (Name × Ixn) := []   -- legacy `connect-intentions` table: (ID, row), ID is the primary key
 deriving Repr
 
+/-- insert into the config-entry table; the primary key is the lower-cased name -/
 def putEntry (es : List Entry) (e : Entry) : List Entry :=
-  if es.any (·.name = e.name) then es.map (fun x => if x.name = e.name then e else x) else es ++ [e]
+  if es.any (fun x => sameName x.name e.name) then es.map (fun x => if sameName x.name e.name then e else x)
+  else es ++ [e]
 
-def getEntry (es : List Entry) (n : Name) : Option Entry := es.find? (·.name = n)
+def getEntry (es : List Entry) (n : Name) : Option Entry := es.find? (fun e => sameName e.name n)
 
 /-- what `ConfigEntry.Apply` does with a service-intentions entry: Normalize, Validate, EnsureConfigEntry -/
 def applyEntry (st : Store) (e : Entry) : Store × Option Err :=
@@ -189,7 +198,7 @@ def applyEntry (st : Store) (e : Entry) : Store × Option Err :=
   | none => ({ st with entries := putEntry st.entries e' }, none)
 
 def deleteEntry (st : Store) (n : Name) : Store :=
-  { st with entries := st.entries.filter (·.name ≠ n) }
+  { st with entries := st.entries.filter (fun e => !sameName e.name n) }
 
 /-- `UpsertSourceByName`: replaces the first source with that *name* (the peer is not compared) -/
 def upsertSource (n : Name) (v : Src) : List Src → List Src
@@ -243,6 +252,52 @@ def mutLegacyCreate (st : Store) (dst : Name) (v : Src) : Store × Option Err :=
     | some err => (st, some err)
     | none => ({ st with entries := putEntry st.entries e' }, none)
 
+/-- `configIntentionGetTxn`: the legacy-id index is not unique; among the entries holding a source with
+    this id the first in primary-key (name) order is returned -/
+def findByLegacyId (es : List Entry) (id : Name) : Option Entry :=
+  (isort (fun a b => bLt (lc a.name) (lc b.name)) (es.filter fun e => e.sources.any (·.lid = id))).head?
+
+/-- `UpdateSourceByLegacyID`: replaces the first source with that legacy id -/
+def updateSourceByLid (id : Name) (v : Src) : List Src → Option (List Src)
+  | [] => none
+  | s :: rest => if s.lid = id then some (v :: rest) else (updateSourceByLid id v rest).map (s :: ·)
+
+/-- `DeleteSourceByLegacyID` -/
+def deleteSourceByLid (id : Name) : List Src → Option (List Src)
+  | [] => none
+  | s :: rest => if s.lid = id then some rest else (deleteSourceByLid id rest).map (s :: ·)
+
+/-- `IntentionMutation(IntentionOpUpdate)` → `intentionMutationLegacyUpdate` (by legacy id) -/
+def mutLegacyUpdate (st : Store) (id : Name) (v : Src) : Store × Option Err :=
+  if !st.cfgMode then (st, some .notConfigMode) else
+  match findByLegacyId st.entries id with
+  | none => (st, some .notFound)
+  | some prev =>
+    if !(prev.sources.all (·.lid ≠ [])) then (st, some .legacyEditNotAllowed) else
+    match updateSourceByLid id v prev.sources with
+    | none => (st, some .notFound)
+    | some srcs =>
+      let e' := normalize true ⟨prev.name, srcs⟩
+      match validate true e' with
+      | some err => (st, some err)
+      | none => ({ st with entries := putEntry st.entries e' }, none)
+
+/-- `IntentionMutation(IntentionOpDelete)` with an id → `intentionMutationLegacyDelete` -/
+def mutLegacyDelete (st : Store) (id : Name) : Store × Option Err :=
+  if !st.cfgMode then (st, some .notConfigMode) else
+  match findByLegacyId st.entries id with
+  | none => (st, some .notFound)
+  | some prev =>
+    if !(prev.sources.all (·.lid ≠ [])) then (st, some .legacyEditNotAllowed) else
+    match deleteSourceByLid id prev.sources with
+    | none => (st, some .notFound)
+    | some [] => (deleteEntry st prev.name, none)
+    | some rest =>
+      let e' := normalize true ⟨prev.name, rest⟩
+      match validate true e' with
+      | some err => (st, some err)
+      | none => ({ st with entries := putEntry st.entries e' }, none)
+
 /-- `LegacyIntentionSet` (legacy table) -/
 def legacySet (st : Store) (id : Name) (r : Ixn) : Store × Option Err :=
   if st.cfgMode then (st, some .legacyDisabled)
@@ -250,8 +305,10 @@ def legacySet (st : Store) (id : Name) (r : Ixn) : Store × Option Err :=
   else
     let r' := { r with prec := precOf r.src r.dst }
     -- the unique `source_destination` index skips rows with an empty name (memdb `CompoundIndex`
-    -- without AllowMissing: a missing field leaves the row unindexed), so those are never "duplicates"
-    if r.src ≠ [] && r.dst ≠ [] && st.rows.any (fun x => x.2.src = r.src && x.2.dst = r.dst && x.1 ≠ id) then
+    -- without AllowMissing: a missing field leaves the row unindexed), so those are never "duplicates";
+    -- its keys are lower-cased
+    if r.src ≠ [] && r.dst ≠ [] &&
+        st.rows.any (fun x => sameName x.2.src r.src && sameName x.2.dst r.dst && x.1 ≠ id) then
       (st, some .dupLegacy)
     else if st.rows.any (·.1 = id) then
       ({ st with rows := st.rows.map fun x => if x.1 = id then (id, r') else x }, none)
@@ -269,6 +326,8 @@ inductive Op
   | up (dst : Name) (v : Src)            -- IntentionMutation upsert
   | del (dst src : Name)                 -- IntentionMutation delete by name
   | lcreate (dst : Name) (v : Src)       -- IntentionMutation create (legacy API on config entries)
+  | lupdate (id : Name) (v : Src)        -- IntentionMutation update by legacy id
+  | ldelid (id : Name)                   -- IntentionMutation delete by legacy id
   | lset (id : Name) (r : Ixn)           -- LegacyIntentionSet
   | ldel (id : Name)                     -- LegacyIntentionDelete
 deriving Repr
@@ -279,6 +338,8 @@ def applyOpE (st : Store) : Op → Store × Option Err
   | .up dst v => mutUpsert st dst v
   | .del dst src => mutDelete st dst src
   | .lcreate dst v => mutLegacyCreate st dst v
+  | .lupdate id v => mutLegacyUpdate st id v
+  | .ldelid id => mutLegacyDelete st id
   | .lset id r => legacySet st id r
   | .ldel id => legacyDelete st id
 
@@ -317,8 +378,8 @@ def legacyNames (n : Name) : List Name := if n = star then [star] else [star, n]
 def legacyRaw (rows : List Ixn) (side : Side) (n : Name) : List Ixn :=
   (legacyNames n).flatMap fun m => rows.filter fun r =>
     match side with
-    | .source => m ≠ [] && r.src = m          -- rows with an empty name are not in the index
-    | .destination => m ≠ [] && r.dst = m
+    | .source => m ≠ [] && sameName r.src m   -- rows with an empty name are not in the (lower-cased) index
+    | .destination => m ≠ [] && sameName r.dst m
 
 /-- `Store.IntentionMatch` / `IntentionMatchOne` for one entry -/
 def matchList (st : Store) (side : Side) (n : Name) : List Ixn :=
